@@ -46,6 +46,14 @@ func genC10(p *Plan, r *RNG) {
 	p.Flavor = "stunconn"
 	cuts, reads := genCuts(r)
 	p.Streams = []StreamCut{{Conn: "wr>rd", Cuts: cuts, Reads: reads}}
+	if r.Chance(1, 4) {
+		// transient read errors between segments (an expired read deadline, EINTR): nothing
+		// that was read before may be lost, the frames still come out whole and in order
+		p.Flavor = "stunconn+read-errors"
+		for k := r.Range(1, 4); k > 0; k-- {
+			p.IOFaults = append(p.IOFaults, IOFault{M: Match{Sock: "reader", Op: "Read", Nth: r.Range(2, 40)}, Do: "error"})
+		}
+	}
 	n := r.Range(1, 8)
 	for i := 0; i < n; i++ {
 		g := gap(int64(r.PickInt([]int{0, 0, 0, 1, 50, 2000})) * ms)
